@@ -194,6 +194,7 @@ pub fn arms_wrappers(t: &Ty) -> Vec<Ty> {
         Ty::Range(x()),
         Ty::RangeInclusive(x()),
         Ty::Named(D_G, vec![t.clone()]),
+        Ty::Cow(x()),
     ];
     if compactable(t) || *t == Ty::Tuple(vec![]) {
         v.push(Ty::Compact(x()));
@@ -223,6 +224,7 @@ impl Driver for DArms {
                     | Ty::VecDeque(x)
                     | Ty::Range(x)
                     | Ty::RangeInclusive(x)
+                    | Ty::Cow(x)
                     | Ty::Compact(x) => leaf(x),
                     Ty::Result(x, _) => leaf(x),
                     Ty::BTreeMap(_, x) => leaf(x),
